@@ -361,7 +361,7 @@ pub fn visit_all<Vz: Visitor>(v: &mut Vz) {
             type S = Consec<Owned<()>, $O>;
             type R = <S as Spec>::R;
             v.visit(
-                Entry::<S>::new(vec![vec![], vec![()], vec![(); u32::MAX as usize], vec![(); 1usize << 62], vec![(); 3], vec![(); 1usize << 32]])
+                Entry::<S>::new(vec![vec![], vec![()], vec![(); u32::MAX as usize], vec![(); 1usize << 62], vec![(); u32::MAX as usize - 1], vec![(); 3], vec![(); 1usize << 32]])
                     .form("Vec<T>", f::owned::<R, Vec<()>>)
                     .form("&Vec<T>", f::by_ref::<R, Vec<()>>)
                     .form("&[T]", f::slice::<R, ()>)
@@ -625,6 +625,21 @@ pub fn visit_all<Vz: Visitor>(v: &mut Vz) {
         let e = slice_rforms!(e, S, R, u8);
         v.visit(e.ordered().cloneable().serde().debug().flags("vector plain"));
     }
+    macro_rules! slice_mirror_usize {
+        ($O:ty) => {{
+            // the inner indices are the values themselves: arbitrary usize sequences reach the
+            // non-default index containers through SliceRegion (extend for slices, push for read items)
+            type S = Slice<Mirror<usize>, $O>;
+            type R = <S as Spec>::R;
+            let big = u32::MAX as usize + 10;
+            let vals: Vec<Vec<usize>> = vec![vec![], vec![0, 3], vec![big, 2, 3], vec![6, usize::MAX, 1]];
+            let e = Entry::<S>::new(vals);
+            let e = slice_forms!(e, S, R, usize);
+            v.visit(e.cloneable().serde().debug().flags("plain"));
+        }};
+    }
+    slice_mirror_usize!(IL);
+    slice_mirror_usize!(IO);
     {
         type S = Slice<Str<Owned<u8>>, Vec<(usize, usize)>>;
         type R = <S as Spec>::R;
